@@ -677,6 +677,33 @@ func scenarioCases(rng *rand.Rand, quick bool) []Case {
 				Text: []byte(fill(twoScenarios(grpcScenarioYAML, "yaml", true), map[string]string{slot: m, "REQS": `["c1"]`}, "@@AUXPATH@@")), Aux: csvs["rows"]})
 		}
 	}
+	// name collisions: two scenarios under one name (alone, and next to a third with a name of its
+	// own), two requests under one name, a scenario named like a request
+	for _, ext := range []string{"yaml", "hcl"} {
+		tmpl := httpScenarioYAML
+		if ext == "hcl" {
+			tmpl = httpScenarioHCL
+		}
+		two := fill(twoScenarios(tmpl, ext, false), nil, "@@AUXPATH@@")
+		third := "  - name: \"s3\"\n    weight: 2\n    min_waiting_time: 0\n    requests: [\"r1\"]\n"
+		if ext == "hcl" {
+			third = "scenario \"s3\" {\n  weight           = 2\n  min_waiting_time = 0\n  requests         = [\"r1\"]\n}\n"
+		}
+		for name, text := range map[string]string{
+			"both-scenarios-s1":       strings.Replace(two, `"s2"`, `"s1"`, 1),
+			"two-of-three-scenarios":  strings.Replace(two, `"s2"`, `"s1"`, 1) + third,
+			"both-requests-r1":        strings.Replace(strings.Replace(two, `name: "r2"`, `name: "r1"`, 1), `request "r2"`, `request "r1"`, 1),
+			"scenario-named-like-req": strings.Replace(two, `"s2"`, `"r1"`, 1),
+		} {
+			out = append(out, Case{Kind: "scenario", Format: "http/scenario", Ext: ext, Mut: "names=" + name, Text: []byte(text), Aux: csvs["rows"]})
+		}
+	}
+	{
+		two := fill(twoScenarios(grpcScenarioYAML, "yaml", true), map[string]string{"REQS": `["c1"]`}, "@@AUXPATH@@")
+		out = append(out, Case{Kind: "scenario", Format: "grpc/scenario", Ext: "yaml", Mut: "names=both-scenarios-s1", Text: []byte(strings.Replace(two, `"s2"`, `"s1"`, 1)), Aux: csvs["rows"]})
+		out = append(out, Case{Kind: "scenario", Format: "grpc/scenario", Ext: "yaml", Mut: "names=two-of-three-scenarios",
+			Text: []byte(strings.Replace(two, `"s2"`, `"s1"`, 1) + "  - name: \"s3\"\n    weight: 2\n    min_waiting_time: 0\n    requests: [\"c1\"]\n"), Aux: csvs["rows"]})
+	}
 	for slot, muts := range slotMutations {
 		for _, m := range muts {
 			for csvName, csv := range csvs {
